@@ -9,9 +9,12 @@ Standard library only (no numpy, no molli).  Three things live here:
   atom / bond line is present and every numeric token converts with Python's ``int`` / ``float``.
   It is deliberately lenient about everything that does not affect completeness or content
   (blank and comment lines anywhere, unknown sections, junk before the first record).
-* ``variants``: the damage classes of the property (truncation at every line boundary, at every
-  byte offset of the last record, line deletion, line duplication, token corruption) together with
+* ``make_variant``: the damage classes of the property (truncation at every line boundary, at every
+  byte offset of the last record, line deletion, line duplication, token corruption incl. numbers of
+  index columns and UNITY attribute lines, a single byte that is not UTF-8) together with
   the provenance of every line of the damaged text (index of the pristine line it is, or None).
+* ``ELEMENT_Z`` / ``MOL2_BOND_TYPE_NAMES``: frozen vocabularies, so that the expectation for a damaged
+  element / bond type token never comes from the code under test.
 * ``line_classes``: the role of every pristine line (used for the distinctness key).
 """
 from __future__ import annotations
@@ -19,6 +22,40 @@ from __future__ import annotations
 import re
 
 RE_TAG = re.compile(r"@<TRIPOS>([A-Z_]+)")
+
+# ------------------------------------------------------------------------------------------------
+# frozen vocabularies of the two formats (the oracle's own; never derived from the code under test)
+
+ELEMENT_SYMBOLS = (
+    "H He Li Be B C N O F Ne Na Mg Al Si P S Cl Ar K Ca Sc Ti V Cr Mn Fe Co Ni Cu Zn Ga Ge As Se Br Kr "
+    "Rb Sr Y Zr Nb Mo Tc Ru Rh Pd Ag Cd In Sn Sb Te I Xe Cs Ba La Ce Pr Nd Pm Sm Eu Gd Tb Dy Ho Er Tm Yb Lu "
+    "Hf Ta W Re Os Ir Pt Au Hg Tl Pb Bi Po At Rn Fr Ra Ac Th Pa U Np Pu Am Cm Bk Cf Es Fm Md No Lr "
+    "Rf Db Sg Bh Hs Mt Ds Rg Cn Nh Fl Mc Lv Ts Og").split()
+assert len(ELEMENT_SYMBOLS) == 118
+#: symbol -> atomic number; "Unknown" (atomic number 0) is the library's documented placeholder name
+ELEMENT_Z = {sym: z + 1 for z, sym in enumerate(ELEMENT_SYMBOLS)}
+ELEMENT_Z["Unknown"] = 0
+
+#: the legal bond type tokens of a mol2 BOND line (TRIPOS definition + the orders 4-6 molli adds) -> name of the bond type
+MOL2_BOND_TYPE_NAMES = {"1": "Single", "2": "Double", "3": "Triple", "4": "Quadruple", "5": "Quintuple", "6": "Sextuple",
+                        "ar": "Aromatic", "am": "Amide", "du": "Dummy", "un": "Unknown", "nc": "NotConnected"}
+
+
+def element_number(symbol: str):
+    """atomic number named by an element column token (case-insensitive, as chemists write it), None if it names none"""
+    return ELEMENT_Z.get(symbol.capitalize())
+
+
+def mol2_atom_type_element(m2t: str):
+    """(atomic number, is_dummy) stated by a mol2 atom type token 'El' / 'El.suffix' / 'Du' / 'Du.El'; None if the
+    element part names no element"""
+    elt, _, suffix = m2t.partition(".")
+    if elt == "Du":
+        return ELEMENT_Z.get(suffix, 0) if suffix else 0, True
+    z = element_number(elt)
+    if z is None:
+        return None
+    return z, False
 
 
 def split_lines(text: str) -> list[str]:
@@ -118,8 +155,11 @@ def _mol2_record(stripped, st, end):
         except ValueError:
             rec["why"] = "bond-line-endpoint-not-integer"
             return rec
-        if not (1 <= a1 <= na and 1 <= a2 <= na):
-            rec["why"] = "bond-endpoint-out-of-range"
+        if a1 < 1 or a2 < 1:
+            rec["why"] = "bond-endpoint-below-one"
+            return rec
+        if a1 > na or a2 > na:
+            rec["why"] = "bond-endpoint-above-atom-count"
             return rec
         rec["bonds"].append({"a1": a1 - 1, "a2": a2 - 1, "type": t[3]})
     for sec, key, limit in (("UNITY_ATOM_ATTR", "atom_attr", na), ("UNITY_BOND_ATTR", "bond_attr", nb)):
@@ -133,8 +173,14 @@ def _mol2_record(stripped, st, end):
             except ValueError:
                 rec["why"] = f"{sec.lower()}-malformed"
                 return rec
-            if not (1 <= idx <= limit) or n_attr < 0 or i + n_attr > len(body):
-                rec["why"] = f"{sec.lower()}-malformed"
+            if idx < 1:
+                rec["why"] = f"{sec.lower()}-index-below-one"
+                return rec
+            if idx > limit:
+                rec["why"] = f"{sec.lower()}-index-above-count"
+                return rec
+            if n_attr < 0 or i + n_attr > len(body):
+                rec["why"] = f"{sec.lower()}-entry-lines-fewer-than-declared" if n_attr >= 0 else f"{sec.lower()}-malformed"
                 return rec
             for _ in range(n_attr):
                 kv = body[i].split()
@@ -271,11 +317,155 @@ def _join(tokens, nl):
     return " ".join(tokens) + nl
 
 
+UNITY_CLASSES = ("sect-UNITY_ATOM_ATTR", "sect-UNITY_BOND_ATTR")
+#: bytes that can never occur in UTF-8 text, as the lone surrogates Python's 'surrogateescape' handler maps them to
+BAD_BYTES = [0xFF, 0xFE, 0xC0, 0x80, 0xF8]
+
+
+def _is_int(t):
+    try:
+        int(t)
+        return True
+    except ValueError:
+        return False
+
+
+def _unity_role(line):
+    """'entry' for an 'index n_attr' line of a UNITY block, 'attr' for a 'name value' line"""
+    t = line.split()
+    return "entry" if len(t) == 2 and _is_int(t[0]) and _is_int(t[1]) else "attr"
+
+
+def _corrupt_index(lines, classes, rng, i, tok, info):
+    """a number in an *index* column (atom id, bond id, bond endpoint, UNITY entry index / attribute count) is changed
+    into another number: still numeric, so nothing but a range / consistency check can notice.  -> True if applied"""
+    c = classes[i]
+    if c == "atom":
+        k, col = 0, "atom-id"
+    elif c == "bond":
+        k = rng.choice([0, 1, 1, 2, 2])
+        col = "bond-id" if k == 0 else "bond-endpoint"
+    else:
+        if _unity_role(lines[i]) != "entry":
+            return False
+        k = rng.choice([0, 0, 0, 1])
+        col = ("unity-atom" if c == "sect-UNITY_ATOM_ATTR" else "unity-bond") + ("-index" if k == 0 else "-attr-count")
+    if len(tok) <= k or not _is_int(tok[k]):
+        return False
+    how = rng.choice(["digit", "digit", "zero", "negative", "neighbour", "neighbour", "larger"])
+    old = tok[k]
+    if how == "digit":
+        digits = [p for p, ch in enumerate(old) if ch.isdigit()]
+        p = rng.choice(digits)
+        new = old[:p] + rng.choice([d for d in "0123456789" if d != old[p]]) + old[p + 1:]
+    elif how == "zero":
+        new = "0"
+    elif how == "negative":
+        new = "-" + str(rng.randint(1, 3))
+    elif how == "larger":
+        new = old + rng.choice("0123456789")
+    else:
+        # the number of the same column a few lines up / down: a wrong value that is certainly within range
+        new = old
+        for d in rng.sample([-3, -2, -1, 1, 2, 3], 6):
+            j = i + d
+            if 0 <= j < len(lines) and classes[j] == c and (c in ("atom", "bond") or _unity_role(lines[j]) == "entry"):
+                tj = lines[j].split()
+                if len(tj) > k and _is_int(tj[k]) and int(tj[k]) != int(old):
+                    new = tj[k]
+                    break
+    if int(new) == int(old):
+        return False
+    tok[k] = new
+    info.update(field=k, column=col, how=how)
+    return True
+
+
+def _corrupt_unity_value(lines, classes, rng, i, tok, info):
+    """the value (or, less often, the name) of one 'name value' line of a UNITY attribute block is garbled"""
+    if _unity_role(lines[i]) != "attr" or len(tok) != 2:
+        return False
+    k = 1 if rng.random() < 0.8 else 0
+    old = tok[k]
+    how = rng.choice(["letter", "bad-number", "foreign-char", "cut", "extend", "other-number-form", "other-number-form"])
+    if how == "other-number-form":
+        # a number written the way another column would hold it (a real where an integer stood, ...)
+        new = rng.choice(["1.0", "1.", "1e0", "-1.0", "2.5", ".5", "1e1", "0x1", "+2.0", "1,0"])
+    elif how == "letter":
+        p = rng.randrange(len(old))
+        new = old[:p] + rng.choice("lOxqZ") + old[p + 1:]
+    elif how == "bad-number":
+        new = rng.choice([b for b in BAD_NUMBERS if b])
+    elif how == "foreign-char":
+        p = rng.randrange(len(old) + 1)
+        new = old[:p] + rng.choice(FOREIGN_CHARS) + old[p + (1 if rng.random() < 0.5 else 0):]
+    elif how == "cut":
+        if len(old) < 2:
+            return False
+        new = old[:rng.randrange(1, len(old))]
+    else:
+        new = old + rng.choice(["0", ".", "e", "-"])
+    if new == old or not new.strip():
+        return False
+    tok[k] = new
+    info.update(field=k, column=("unity-atom" if classes[i] == "sect-UNITY_ATOM_ATTR" else "unity-bond")
+                + ("-value" if k == 1 else "-name"), how=how)
+    return True
+
+
+def corrupt_byte(fmt, lines, classes, rng):
+    """one byte of a data line is overwritten by (or one is slipped in as) a byte that no UTF-8 text contains.  The damaged
+    text is returned as the str that decoding with errors='surrogateescape' gives (lone surrogate U+DC80..U+DCFF); written
+    back with the same handler it is the damaged file, byte for byte.  -> (new_lines, prov, info) or None"""
+    want = ("count", "atom") if fmt == "xyz" else ("hdr-counts", "atom", "atom", "bond") + UNITY_CLASSES
+    cand = [i for i, c in enumerate(classes) if c in want]
+    if not cand:
+        return None
+    i = rng.choice(cand)
+    line = lines[i]
+    spans = [m.span() for m in re.finditer(r"\S+", line)]
+    if not spans:
+        return None
+    numeric = [sp for sp in spans if line[sp[0]:sp[1]].lstrip("+-")[:1].isdigit()]
+    sp = rng.choice(numeric) if numeric and rng.random() < 0.8 else rng.choice(spans)
+    b = rng.choice(BAD_BYTES)
+    ch = chr(0xDC00 + b)
+    mode = "overwrite" if rng.random() < 0.7 else "insert"
+    if mode == "overwrite":
+        p = rng.randrange(sp[0], sp[1])
+        new_line = line[:p] + ch + line[p + 1:]
+    else:
+        p = rng.randrange(sp[0], sp[1] + 1)
+        new_line = line[:p] + ch + line[p:]
+    out = list(lines)
+    out[i] = new_line
+    prov = list(range(len(lines)))
+    prov[i] = None
+    info = {"kind": "byte:" + mode, "line": i, "class": classes[i], "old": line.rstrip("\n"), "new": new_line.rstrip("\n"),
+            "byte": "0x%02X" % b, "token": "numeric" if sp in numeric else "other"}
+    return out, prov, info
+
+
 def corrupt_token(fmt, lines, classes, rng):
     """one seeded token corruption -> (new_lines, prov, info) or None if the draw is not applicable"""
     op = rng.choice(["count-digit", "count-digit", "remove-field", "add-field", "bad-coordinate", "coord-digit",
-                     "foreign-char", "foreign-char", "bad-symbol"])
-    if op == "count-digit":
+                     "foreign-char", "foreign-char", "bad-symbol", "index-digit", "index-digit", "index-digit",
+                     "unity-value"]
+                    # a text with UNITY blocks: their few lines get a fair share of the draws
+                    + (["unity-value", "unity-value", "unity-value", "index-digit"]
+                       if any(c in classes for c in UNITY_CLASSES) else []))
+    if fmt == "xyz" and op in ("index-digit", "unity-value"):
+        return None
+    if op == "index-digit":
+        want = ("atom", "bond", "bond") + UNITY_CLASSES + UNITY_CLASSES
+        # the classes are drawn first, then the line: a handful of UNITY lines is not drowned by hundreds of atom lines
+        present = [c for c in want if c in classes]
+        if not present:
+            return None
+        want = (rng.choice(present),)
+    elif op == "unity-value":
+        want = UNITY_CLASSES
+    elif op == "count-digit":
         want = ("count",) if fmt == "xyz" else ("hdr-counts",)
     elif op in ("bad-coordinate", "coord-digit"):
         want = ("atom",)
@@ -284,7 +474,7 @@ def corrupt_token(fmt, lines, classes, rng):
     elif op == "bad-symbol":
         want = ("atom",)
     else:
-        want = ("count", "atom") if fmt == "xyz" else ("hdr-counts", "atom", "bond", "sect-UNITY_ATOM_ATTR")
+        want = ("count", "atom") if fmt == "xyz" else ("hdr-counts", "atom", "bond") + UNITY_CLASSES
     cand = [i for i, c in enumerate(classes) if c in want]
     if not cand:
         return None
@@ -295,7 +485,13 @@ def corrupt_token(fmt, lines, classes, rng):
     if not tok:
         return None
     info = {"op": op, "line": i, "class": classes[i], "old": line.rstrip("\n")}
-    if op == "count-digit":
+    if op == "index-digit":
+        if not _corrupt_index(lines, classes, rng, i, tok, info):
+            return None
+    elif op == "unity-value":
+        if not _corrupt_unity_value(lines, classes, rng, i, tok, info):
+            return None
+    elif op == "count-digit":
         # change one digit of one count token (the value the header declares changes)
         k = rng.randrange(len(tok)) if rng.random() < 0.3 else rng.randrange(min(2, len(tok)))
         digits = [p for p, ch in enumerate(tok[k]) if ch.isdigit()]
@@ -375,7 +571,7 @@ def last_record_start(fmt, lines) -> int:
     return recs[-1]["start"] if recs else 0
 
 
-def enumerate_cases(fmt, lines, n_tok):
+def enumerate_cases(fmt, lines, n_tok, n_byte=0):
     """all case ids of one text, in a fixed order"""
     n = len(lines)
     cases = [("none",)]
@@ -386,6 +582,7 @@ def enumerate_cases(fmt, lines, n_tok):
     cases += [("del", i) for i in range(n)]
     cases += [("dup", i) for i in range(n)]
     cases += [("tok", k) for k in range(n_tok)]
+    cases += [("byte", k) for k in range(n_byte)]
     return cases
 
 
@@ -428,6 +625,14 @@ def make_variant(fmt, lines, classes, case, rng_for):
             if r is not None:
                 out, prov, info = r
                 info["kind"] = "tok:" + info.pop("op")
+                return "".join(out), out, prov, info
+        return None
+    if kind == "byte":
+        rng = rng_for(case)
+        for _ in range(8):
+            r = corrupt_byte(fmt, lines, classes, rng)
+            if r is not None:
+                out, prov, info = r
                 return "".join(out), out, prov, info
         return None
     raise ValueError(case)
